@@ -333,13 +333,15 @@ type gsCall struct {
 }
 
 type gsSim struct {
-	sets    [][]int // guardianSets[i] as key ids; current index = len-1
-	failIdx bool    // the index call fails
-	failSet bool    // the set call fails
-	mid     [][]int // upgrades that land right after the index call was answered (between the two calls of one fetch)
-	lagSet  bool    // the set call is answered by a backend that does not know the newest set yet
-	oldIdx  bool    // the index call is answered by a backend that does not know the newest set yet
-	calls   []gsCall
+	sets     [][]int // guardianSets[i] as key ids; current index = len-1
+	failIdx  bool    // the index call fails
+	failSet  bool    // the set call fails
+	mid      [][]int // upgrades that land right after the index call was answered (between the two calls of one fetch)
+	lagSet   bool    // the set call is answered by a backend that does not know the newest set yet
+	oldIdx   bool    // the index call is answered by a backend that does not know the newest set yet
+	failIdxN int     // the next N index calls fail (run-level scenarios: the initial fetch of a re-entered Run)
+	failSetN int     // the next N set calls fail
+	calls    []gsCall
 }
 
 func gsKeyAddr(id int) ethcommon.Address {
@@ -382,6 +384,11 @@ func (s *evmSim) Call(ctx context.Context, args simCallArgs, blk json.RawMessage
 		if g == nil {
 			return m.Outputs.Pack(uint32(0))
 		}
+		if g.failIdxN > 0 {
+			g.failIdxN--
+			g.calls = append(g.calls, gsCall{Kind: "idx", Asked: -1, Idx: -1, Err: true})
+			return nil, errInjected
+		}
 		if g.failIdx {
 			g.calls = append(g.calls, gsCall{Kind: "idx", Asked: -1, Idx: -1, Err: true})
 			return nil, errInjected
@@ -404,6 +411,11 @@ func (s *evmSim) Call(ctx context.Context, args simCallArgs, blk json.RawMessage
 			return nil, fmt.Errorf("verif sim: bad getGuardianSet arguments")
 		}
 		asked := int64(in[0].(uint32))
+		if g.failSetN > 0 {
+			g.failSetN--
+			g.calls = append(g.calls, gsCall{Kind: "set", Asked: asked, Idx: -1, Err: true})
+			return nil, errInjected
+		}
 		if g.failSet {
 			g.calls = append(g.calls, gsCall{Kind: "set", Asked: asked, Idx: -1, Err: true})
 			return nil, errInjected
